@@ -373,7 +373,7 @@ example : (Map.lookup (str "#c") (run cfg0 kick2).channels).map (fun C => Map.ke
     some [str "alice"] := by decide
 example : (run cfg0 kick3).channels = [] ∧ (run cfg0 kick3).conns.map (·.id) = [1, 2] := by decide
 example : (step cfg0 (run cfg0 setup) (.line 1 (str "KICK #nochan bob"))).outs =
-    [(1, str ":irc.irc 403 alice #nochan :No such channel")] := by decide
+    [(1, (str ":irc.irc " ++ Reply.ErrNoSuchChannel403 (client := str "alice") (channel := str "#nochan")))] := by decide
 
 /-- masks, keys, limits, rank changes, missing and surplus arguments, list queries -/
 def modeRun : List Event := setup ++
@@ -431,7 +431,7 @@ example : ∀ y, y ∈ (run cfg0 setup).conns → y.id = 2 →
     y ∈ (step cfg0 (run cfg0 setup) (.tooLong 1)).w.conns :=
   fun y hy hid => others_untouched_event setup_inv rfl y hy (by rw [hid]; decide)
 example : let r := step cfg0 (run cfg0 setup) (.tooLong 1)
-    r.outs = [(1, str ":irc.irc 417 alice :Input line was too long")] ∧
+    r.outs = [(1, (str ":irc.irc " ++ Reply.ErrInputTooLong417 (client := str "alice")))] ∧
     r.w.conns.map (·.id) = [2] ∧ r.w.panicked = none := by decide
 -- bob is a bystander of a whole sequence of events on other connections
 def noise : List Event :=
@@ -460,7 +460,7 @@ def badPw : List Event := [.connect 1 (str "h"), .line 1 (str "PASS wrong"), .li
 
 theorem badPw_inv : Inv (run cfgP badPw) := inv_run (by decide)
 example : let r := step cfgP (run cfgP badPw) (.line 1 (str "USER carol 0 * :C"))
-    r.outs = [(1, str ":irc.irc 464 carol :Password incorrect")] ∧ r.w.conns = [] ∧
+    r.outs = [(1, (str ":irc.irc " ++ Reply.ErrPasswdMismatch464 (client := str "carol")))] ∧ r.w.conns = [] ∧
     r.w.panicked = none := by decide
 example : Said464 cfgP (handleLine cfgP 1 (str "USER carol 0 * :C") { w := run cfgP badPw }) :=
   ⟨str "carol", by decide⟩
